@@ -118,7 +118,7 @@ def generated(seed, idx):
         ir["n"] = n
         ir["spikes"] = [[w, min(m, 500), kd] for w, m, kd in ir["spikes"]]
         return fam, [{"programs": [{"kind": "snippet", "source": c16.render(ir, n)}], "tape": [], "faults": sc["faults"],
-                      "fs": {"c16mod": {"source": c16.C16MOD, "reads": []}}, "config": {"max_events": 64}}]
+                      "fs": {"c16mod": {"source": c16.C16MOD, "reads": []}, "c16bad": {"source": c16.C16BAD, "reads": []}}, "config": {"max_events": 64}}]
     sc = c01.PROP.generate(derive(seed, "C10-C01"), sub, "quick")
     return fam, [{"programs": [{"kind": "snippet", "source": c01.render(sc["ir"])}], "tape": [], "faults": {},
                   "fs": {"gcm": {"source": c01.GCM, "reads": []}}}]
